@@ -362,6 +362,118 @@ func (r *run) perturb(g *gen, k *kind, base claim, hb, vb, lb string) {
 		}
 	}
 	r.listPerturb(g, k, base, hb, vb, lb)
+	for _, v := range listElemResplits(k, base) {
+		r.out.Count("perturb:list-elements:" + v.how)
+		r.variant(g, k, v.how, base, hb, vb, lb, v.val)
+	}
+}
+
+// listElemResplits: for every list-valued field, the same character string split at another position between adjacent
+// elements (digits of amounts / powers, characters of text elements), an element split in two or two merged, an empty
+// element — collides whenever the elements are written out without a separator or with one the elements may contain
+func listElemResplits(k *kind, base claim) (out []cv) {
+	v := elem(base)
+	for fi := 0; fi < v.NumField(); fi++ {
+		f := v.Type().Field(fi)
+		idx := fi
+		n := v.Field(fi).Len
+		switch {
+		case f.Type.Kind() == reflect.Slice && f.Type.Elem() == tInt:
+			for i := 0; i+1 < n(); i++ {
+				a, b := v.Field(idx).Index(i).Interface().(sdkmath.Int), v.Field(idx).Index(i+1).Interface().(sdkmath.Int)
+				if a.IsNil() || b.IsNil() || a.IsNegative() || b.IsNegative() {
+					continue
+				}
+				da, db := a.String(), b.String()
+				for _, mv := range []int{1, 2, len(da) - 1, -1, -2, -(len(db) - 1)} {
+					var na, nb string
+					switch {
+					case mv > 0 && mv < len(da):
+						na, nb = da[:len(da)-mv], da[len(da)-mv:]+db
+					case mv < 0 && -mv < len(db):
+						na, nb = da+db[:-mv], db[-mv:]
+					default:
+						continue
+					}
+					xa, ok1 := new(big.Int).SetString(na, 10)
+					xb, ok2 := new(big.Int).SetString(nb, 10)
+					if !ok1 || !ok2 || xa.BitLen() > 256 || xb.BitLen() > 256 {
+						continue
+					}
+					c := k.clone(base)
+					elem(c).Field(idx).Index(i).Set(reflect.ValueOf(sdkmath.NewIntFromBigInt(xa)))
+					elem(c).Field(idx).Index(i + 1).Set(reflect.ValueOf(sdkmath.NewIntFromBigInt(xb)))
+					out = append(out, cv{f.Name + " (digits moved between adjacent elements)", c})
+				}
+			}
+			if n() >= 1 {
+				c := k.clone(base)
+				elem(c).Field(idx).Index(0).Set(reflect.ValueOf(sdkmath.Int{}))
+				out = append(out, cv{f.Name + " (unset element)", c})
+			}
+		case f.Type.Kind() == reflect.Slice && f.Type.Elem() == tString:
+			for i := 0; i+1 < n(); i++ {
+				a, b := v.Field(idx).Index(i).String(), v.Field(idx).Index(i+1).String()
+				if len(a) > 1 {
+					c := k.clone(base)
+					elem(c).Field(idx).Index(i).SetString(a[:len(a)-1])
+					elem(c).Field(idx).Index(i + 1).SetString(a[len(a)-1:] + b)
+					out = append(out, cv{f.Name + " (character moved between adjacent elements)", c})
+				}
+				if len(b) > 1 {
+					c := k.clone(base)
+					elem(c).Field(idx).Index(i).SetString(a + b[:1])
+					elem(c).Field(idx).Index(i + 1).SetString(b[1:])
+					out = append(out, cv{f.Name + " (character moved between adjacent elements)", c})
+				}
+				c := k.clone(base)
+				elem(c).Field(idx).Index(i).SetString(a + b)
+				elem(c).Field(idx).Index(i + 1).SetString("")
+				out = append(out, cv{f.Name + " (two elements merged, empty element)", c})
+				c2 := k.clone(base)
+				elem(c2).Field(idx).Index(i).SetString(a + " " + b)
+				elem(c2).Field(idx).Index(i + 1).SetString("")
+				out = append(out, cv{f.Name + " (two elements merged with a space, empty element)", c2})
+			}
+		case f.Type == tMembers:
+			for i := 0; i+1 < n(); i++ {
+				pa := v.Field(idx).Index(i).FieldByName("Power").Uint()
+				pb := v.Field(idx).Index(i + 1).FieldByName("Power").Uint()
+				da, db := fmt.Sprint(pa), fmt.Sprint(pb)
+				for _, mv := range []int{1, -1} {
+					var na, nb string
+					switch {
+					case mv > 0 && len(da) > 1:
+						na, nb = da[:len(da)-1], da[len(da)-1:]+db
+					case mv < 0 && len(db) > 1:
+						na, nb = da+db[:1], db[1:]
+					default:
+						continue
+					}
+					var xa, xb uint64
+					if _, err := fmt.Sscan(na, &xa); err != nil {
+						continue
+					}
+					if _, err := fmt.Sscan(nb, &xb); err != nil {
+						continue
+					}
+					c := k.clone(base)
+					elem(c).Field(idx).Index(i).FieldByName("Power").SetUint(xa)
+					elem(c).Field(idx).Index(i + 1).FieldByName("Power").SetUint(xb)
+					out = append(out, cv{f.Name + " (power digits moved between adjacent members)", c})
+				}
+				// the digit between a power and the neighbouring address
+				aa := v.Field(idx).Index(i).FieldByName("ExternalAddress").String()
+				if len(aa) > 0 && aa[0] >= '0' && aa[0] <= '9' && pa < (1<<64-1)/10-1 {
+					c := k.clone(base)
+					elem(c).Field(idx).Index(i).FieldByName("Power").SetUint(pa*10 + uint64(aa[0]-'0'))
+					elem(c).Field(idx).Index(i).FieldByName("ExternalAddress").SetString(aa[1:])
+					out = append(out, cv{f.Name + " (digit moved between power and address)", c})
+				}
+			}
+		}
+	}
+	return out
 }
 
 func baseName(ref string) string {
